@@ -209,6 +209,7 @@ func (p *c09) Decode(raw json.RawMessage) (any, error) { return core.JSONDecode[
 type c09Call struct {
 	prog  *Prog
 	ep    string
+	v     int // data variant
 	data  any
 	out   string
 	err   string
@@ -262,7 +263,12 @@ func (p *c09) Exec(ctx core.Ctx, cc any) core.Obs {
 				}
 				call.data = shared[call.prog.Name]
 			} else {
-				call.data = call.prog.Data.Go()
+				// private data differs from call to call, so that another request's
+				// values showing up in this one's output are visible
+				if !call.fresh {
+					call.v = r.Intn(4)
+				}
+				call.data = call.prog.Variant(call.v)
 			}
 			plans[g] = append(plans[g], &call)
 		}
@@ -348,13 +354,13 @@ func (p *c09) Exec(ctx core.Ctx, cc any) core.Obs {
 	for g := range plans {
 		for _, call := range plans[g] {
 			o.Evals++
-			key := call.prog.Name + "/" + call.ep
+			key := fmt.Sprintf("%s/%s/%d", call.prog.Name, call.ep, call.v)
 			if call.fresh {
 				key = call.prog.Str + "/" + call.ep
 			}
 			ref, ok := solo[key]
 			if !ok {
-				out, err := newCatEngine(fsys).run(call.prog, call.ep, call.prog.Data.Go())
+				out, err := newCatEngine(fsys).run(call.prog, call.ep, call.prog.Variant(call.v))
 				ref = c10Ref{out, errStr(err)}
 				solo[key] = ref
 				o.Evals++
